@@ -2,6 +2,7 @@ package pseq
 
 import (
 	"fmt"
+	"math"
 	"strings"
 
 	"github.com/creachadair/mds/mlink"
@@ -495,15 +496,25 @@ func (r *listRun) apply(op Op) string {
 		r.clear()
 		return ""
 	case "peek":
+		if a >= 190 { // offsets at the end of the int range
+			ext := []int{math.MaxInt, math.MaxInt - 1, math.MaxInt - n, 1 << 31, 1 << 32}
+			return r.checkPeek(ext[a%len(ext)])
+		}
 		return r.checkPeek(a % (n + 3))
 	case "peekNeg":
 		k := -(a%3 + 1)
+		if a >= 190 {
+			k = []int{math.MinInt, math.MinInt + 1, -1 << 32, -math.MaxInt}[a%4]
+		}
 		if pv := vk.PanicValue(func() { r.l.Peek(k) }); pv == nil {
 			return r.errf("Peek(%d) returned; the documentation says Peek panics if n < 0", k)
 		}
 		return ""
 	case "atNeg":
 		k := -(a%3 + 1)
+		if a >= 190 {
+			k = []int{math.MinInt, math.MinInt + 1, -1 << 32, -math.MaxInt}[a%4]
+		}
 		if pv := vk.PanicValue(func() { r.l.At(k) }); pv == nil {
 			return r.errf("At(%d) returned; the documentation says At panics if n < 0", k)
 		}
